@@ -97,7 +97,13 @@ func (b *Block) ToBytes() []byte {
 	var viewBuf [8]byte
 	binary.LittleEndian.PutUint64(viewBuf[:], uint64(b.view))
 	buf = append(buf, viewBuf[:]...)
-	buf = append(buf, b.batch.Marshal()...) // may panic
+	// length-prefix the commands: their encoding is followed by the certificate's, and without a delimiter
+	// the tail of a command could be read as the head of a certificate (two blocks, one hash).
+	batchBuf := b.batch.Marshal() // may panic
+	var lenBuf [8]byte
+	binary.LittleEndian.PutUint64(lenBuf[:], uint64(len(batchBuf)))
+	buf = append(buf, lenBuf[:]...)
+	buf = append(buf, batchBuf...)
 	buf = append(buf, b.cert.ToBytes()...)
 	// seconds and nanoseconds separately: UnixNano wraps around every 2^64 ns (about 584 years)
 	var tsBuf [12]byte
